@@ -4,7 +4,7 @@
 From Coq Require Import String List NArith Bool.
 From J5V.lib Require Import Outcome.
 From J5V.model Require Import ReflectDesc ReflectSchema Reflect ReflectOwn ReflectNames ReflectSpec.
-From J5V.proofs Require Import ReflectProofs ReflectInvProofs ReflectPathProofs ReflectFlattenProofs ReflectFuelProofs ReflectDeclProofs ReflectOwnProofs ReflectOwnExactProofs.
+From J5V.proofs Require Import ReflectProofs ReflectInvProofs ReflectPathProofs ReflectFlattenProofs ReflectFuelProofs ReflectDeclProofs ReflectOrderProofs ReflectOwnProofs ReflectOwnExactProofs.
 Import ListNotations.
 
 Lemma lookup_in_entry (S : sset) k e : lookup S k = Some e -> exists k', In (k', e) S.
@@ -312,4 +312,26 @@ Proof.
   apply (ReflectOwnExactProofs.o_cache_transparent D Hwf s m r (o_checked_reach_is_reach D s Hs) Hm).
   destruct (o_cache_schema_checked D (size D) ([], []) m) as [s1 o] eqn:E. cbn [snd] in H. subst o.
   destruct (o_cache_schema_checked_ok D (size D) ([], []) m s1 r E) as [Hb _]. rewrite Hb. reflexivity.
+Qed.
+
+(* ---- file order and the repaired reader (wf_keys): what the existing order theorems give.  If the
+   repaired reader accepts the files in one order, the BUILD succeeds in every other order; and two orders
+   that are both accepted give sets that agree on every message and enum they both hold.  (Not proved:
+   that the name check then passes in the other order too.) *)
+Theorem o_reflect_checked_order D : ReflectInvProofs.wf_keys D -> forall fs fs',
+  Permutation.Permutation fs fs' ->
+  (forall S ow, o_reflect_checked D fs = Ok (S, ow) -> exists S' ow', o_reflect D fs' = Ok (S', ow')) /\
+  (forall S ow S' ow', o_reflect_checked D fs = Ok (S, ow) -> o_reflect_checked D fs' = Ok (S', ow') ->
+     (forall m r r', In m (d_msgs D) -> lookup S (msg_key m) = Some (Linked r) -> lookup S' (msg_key m) = Some (Linked r') -> r = r') /\
+     (forall e r r', In e (d_enums D) -> lookup S (enum_key e) = Some (Linked r) -> lookup S' (enum_key e) = Some (Linked r') -> r = r')).
+Proof.
+  intros Hwf fs fs' Hp. split.
+  - intros S ow HC.
+    apply (proj1 (ReflectOwnExactProofs.o_reflect_file_order_independent D Hwf fs fs' Hp)).
+    exists S, ow. exact (o_reflect_checked_ok D fs (S, ow) HC).
+  - intros S ow S' ow' HC HC'.
+    pose proof (o_reflect_ok D fs S ow (o_reflect_checked_ok D fs (S, ow) HC)) as HS.
+    pose proof (o_reflect_ok D fs' S' ow' (o_reflect_checked_ok D fs' (S', ow') HC')) as HS'.
+    destruct (ReflectOrderProofs.collect_perm fs fs' Hp) as [H1 H2].
+    exact (proj2 (ReflectOrderProofs.reflect_order_independent D Hwf fs fs' H1 H2) S S' HS HS').
 Qed.
